@@ -214,6 +214,9 @@ def build(ir):
         return ch[0].T
     if k == "H":
         return ch[0].H
+    if k == "gram":  # the same object on both sides
+        A = ch[0]
+        return {"HA": lambda: A.H @ A, "AH": lambda: A @ A.H, "TA": lambda: A.T @ A, "AT": lambda: A @ A.T}[ir["form"]]()
     if k == "slice":
         return ch[0][dec_index(ir["s0"]), dec_index(ir["s1"])]
     if k == "cat":
@@ -377,6 +380,11 @@ def denote(ir):
         return Ref(ch[0].M.T.copy(), ch[0].Mabs.T, ch[0].exact)
     if k == "H":
         return Ref(ch[0].M.conj().T.copy(), ch[0].Mabs.T, ch[0].exact)
+    if k == "gram":
+        M, Ma = ch[0].M, ch[0].Mabs
+        f = ir["form"]
+        out = {"HA": M.conj().T @ M, "AH": M @ M.conj().T, "TA": M.T @ M, "AT": M @ M.T}[f]
+        return Ref(out, Ma.T @ Ma if f in ("HA", "TA") else Ma @ Ma.T, ch[0].exact)
     if k == "slice":
         s0, s1 = dec_index(ir["s0"]), dec_index(ir["s1"])
         return Ref(ch[0].M[s0][:, s1], ch[0].Mabs[s0][:, s1], ch[0].exact)
